@@ -103,6 +103,8 @@ def c11_params(rng: random.Random, cell: Optional[dict] = None) -> dict:
         p['i_lat'] = p['d_lat']
     p['cancel_k'] = rng.randint(0, 14)
     p['cancel_t'] = rng.choice([0.001, 0.01, 0.05, 1.0, 5.0, 9.99, 10.0, 10.01, 30.0, 59.9, 60.0, 60.1])
+    # the scripted server leaves the optional obfuscated-port fields out of its answers when there is no such port
+    p['omit_obf_fields'] = random.Random(repr(sorted((k, str(v)) for k, v in p.items()))).random() < 0.4
     return p
 
 
@@ -121,6 +123,7 @@ def run_c11_case(res: dict, params: dict, seed: Any, judge_c10: bool = False, ju
             CannotConnect, ConnectToPeer, DistributedPing, GetPeerAddress, PeerUserInfoRequest)
         from aioslsk.settings import PeerSettings
         await w.start_server()
+        w.server.omit_obfuscated_fields = bool(p.get('omit_obf_fields'))
         me = await w.add_client('me')
         me.client.settings.network.peer.connect_mode = PeerConnectMode.RACE if p['mode'] == 'race' else PeerConnectMode.FALLBACK
         me.client.settings.network.peer.obfuscate = p['prefer_obf']
@@ -402,6 +405,7 @@ def run_connect_back_case(res: dict, rng: random.Random, seed: Any, judge_c10: b
                      'ports': rng.choice(['clear', 'obf', 'both']), 'ticket': 7000 + k,
                      'gap': rng.choice([0.0, 0.0, 0.01, 1.0])})
     prefer_obf = rng.random() < 0.5
+    omit_obf_fields = random.Random(f'{seed}:omit').random() < 0.4
 
     async def main(w: World):
         from aioslsk.protocol.messages import CannotConnect, ConnectToPeer, PeerPierceFirewall
@@ -442,9 +446,13 @@ def run_connect_back_case(res: dict, rng: random.Random, seed: Any, judge_c10: b
                 await asyncio.sleep(r['gap'])
             peer = r['peer']
             w.pending_pierce[(peer.name, r['ticket'])] = (r['typ'], 'me')
-            w.server.push('me', ConnectToPeer.Response(
-                peer.name, r['typ'], peer.ip, peer.port, r['ticket'], False,
-                1 if peer.obf_port else 0, peer.obf_port))
+            if omit_obf_fields and not peer.obf_port:
+                # the obfuscated-port fields are optional on the wire
+                w.server.push('me', ConnectToPeer.Response(peer.name, r['typ'], peer.ip, peer.port, r['ticket'], False))
+            else:
+                w.server.push('me', ConnectToPeer.Response(
+                    peer.name, r['typ'], peer.ip, peer.port, r['ticket'], False,
+                    1 if peer.obf_port else 0, peer.obf_port))
         await settle(30.0)
         out = []
         for r in reqs:
